@@ -13,7 +13,7 @@ allob = []
 for q in names:
     if S.CONTRACTS[q].trusted: continue
     from pyvc import models
-    models.LAMBDA_MODE[0] = S.CONTRACTS[q].ghost.get('mode') == 'lambda'
+    models.LAMBDA_MODE[0] = (S.CONTRACTS[q].ghost.get('mode') == 'lambda') != bool(__import__('os').environ.get('LAMBDA'))
     try:
         r = verify_function(eng, q)
         print(q, 'paths', r['paths'], 'obligations', len(r['obligations']))
